@@ -28,7 +28,7 @@ def corpus() -> list[dict]:
     for meta in sorted(glob.glob(os.path.join(VERIF, "seeded", "*", "meta.json"))):
         m = json.load(open(meta))
         out.append({"name": "seeded/" + os.path.basename(os.path.dirname(meta)), "property": m["property"],
-                    "patch": os.path.join(os.path.dirname(meta), "patch.diff"),
+                    "patch": os.path.join(os.path.dirname(meta), "patch.diff"), "base_commit": m.get("base_commit"),
                     "expect_detected": m.get("expect_detected", True)})
     return out
 
@@ -38,6 +38,18 @@ def run_one(entry: dict, tier: str, seed: int, workers: int, runs: int | None) -
     tmp = tempfile.mkdtemp(prefix="geosim-mut-")
     try:
         shutil.copytree("/repo/geometer", os.path.join(tmp, "geometer"))
+        p = subprocess.run(["patch", "-p1", "-s", "--dry-run", "-i", entry["patch"]], cwd=tmp, capture_output=True,
+                           text=True)
+        based_on = "working tree"
+        if p.returncode != 0 and entry.get("base_commit"):
+            # the change was written against an earlier commit of /repo and conflicts with a later fix:
+            # test it on the tree it was written for
+            shutil.rmtree(os.path.join(tmp, "geometer"))
+            a = subprocess.run(f"git -C /repo archive {entry['base_commit']} geometer | tar -x -C {tmp}", shell=True,
+                               capture_output=True, text=True)
+            based_on = entry["base_commit"][:7]
+            if a.returncode != 0:
+                return {"name": entry["name"], "error": "cannot extract base commit: " + a.stderr[-300:]}
         p = subprocess.run(["patch", "-p1", "-s", "-i", entry["patch"]], cwd=tmp, capture_output=True, text=True)
         if p.returncode != 0:
             return {"name": entry["name"], "error": "patch does not apply: " + (p.stdout + p.stderr)[-400:]}
@@ -52,7 +64,7 @@ def run_one(entry: dict, tier: str, seed: int, workers: int, runs: int | None) -
         lines = [x for x in p.stdout.splitlines() if x.startswith(("VIOLATION", "  seed=", "HARNESS", "KNOWN"))]
         return {"name": entry["name"], "property": entry["property"], "exit": p.returncode,
                 "detected": p.returncode == 1 and any(x.startswith("VIOLATION") for x in lines),
-                "lines": lines[:6], "wall_s": round(time.time() - t0, 1),
+                "lines": lines[:6], "wall_s": round(time.time() - t0, 1), "based_on": based_on,
                 "tail": p.stdout.splitlines()[-1:] if p.stdout else [p.stderr[-300:]]}
     finally:
         shutil.rmtree(tmp, ignore_errors=True)
